@@ -57,7 +57,10 @@ def run(ctx):
                 r, ev = wrappers.accept(tool, trace)
                 ctx.cov["traces_validated_against_impl"] = ctx.cov.get("traces_validated_against_impl", 0) + 1
                 ctx.cov["trace_events_total"] = ctx.cov.get("trace_events_total", 0) + len(ev)
-                if not r.startswith("accepted"):
+                if r.startswith("skipped"):
+                    ctx.cov["traces_not_validated_acceptor_timeout"] = ctx.cov.get("traces_not_validated_acceptor_timeout", 0) + 1
+                    ctx.cov["traces_validated_against_impl"] -= 1
+                elif not r.startswith("accepted"):
                     pvlib.report_violation(ctx, f"corr:wrapper-trace:{tool}", {"tool": tool, "child": pol, "input": label, "verdict": r,
                                            "events_head": ev[:60], "correspondence": "PV_TRACE event log vs PV.Wrapper.astep (refined by the LTS)"},
                                            no_input=True, summary=f"{tool}: recorded event trace not accepted by the wrapper automaton: {r}")
